@@ -365,8 +365,25 @@ ItemsHeld(Sx, c) ==
              THEN \A j \in DOMAIN c.vals[k].l : RequiredSet(f.item, c.vals[k].l[j])
         ELSE TRUE
 C11_ItemsHeld ==
-    \A n \in Names : (Built(n) /\ ev.op \in {"Init", "Load", "Ctor", "CopyTree", "RoundTrip"} /\ ("n" \in DOMAIN ev => ev.n = n) /\ ("out" \in DOMAIN ev => ev.out = "ok"))
+    \* (operations that build or load every list of the configuration; a load of a partial tree
+    \* leaves the other lists alone - items invalidated in place since they were inserted are not
+    \* looked at again, the statement holds items to the rule "when they are loaded or inserted")
+    \A n \in Names : (Built(n) /\ ev.op \in {"Init", "Ctor", "CopyTree", "RoundTrip"} /\ ("n" \in DOMAIN ev => ev.n = n) /\ ("out" \in DOMAIN ev => ev.out = "ok"))
                         => ItemsHeld(S, cfgs[n])
+\* a load that returns: the items of every list of configurations the document mentions pass
+\* their schema's validation
+RECURSIVE ItemsLoadedOk(_, _, _)
+ItemsLoadedOk(Sx, c, t) ==
+    t.t = "dict" =>
+    \A i \in DOMAIN Sx.fields :
+        LET k == Sx.fields[i][1]  f == Sx.fields[i][2]  kc == StrV(KeyChars[k]) IN
+        (f.kind # "virtual" /\ DictHas(t.kv, kc) /\ k \in DOMAIN c.vals) =>
+            IF IsSchema(f) THEN IsCfg(c.vals[k]) => ItemsLoadedOk(f, c.vals[k], DictGet(t.kv, kc))
+            ELSE IF f.kind = "list" /\ IsSchema(f.item) /\ c.vals[k].t = "list"
+                 THEN \A j \in DOMAIN c.vals[k].l : ValidateCfg(f.item, c.vals[k].l[j], <<>>).ok
+            ELSE TRUE
+C11_ItemsLoaded ==
+    \A n \in Names : (ev.op = "Load" /\ ev.n = n /\ ev.out = "ok") => ItemsLoadedOk(S, cfgs[n], ev.tree)
 InsertedIdx(o, nOld, nNew) ==
     CASE o.m = "append" -> {nNew}
       [] o.m = "insert" -> {ClampIns(o.i, nOld) + 1}
